@@ -191,6 +191,31 @@ func TestVerifC09(t *testing.T) {
 		rec.sample("batch-write-error", 1, sessBrief(&sc))
 	}
 
+	// ---- several sessions of one listener share its cipher object -----------------
+	// (the multi-peer world of C11/C19: every datagram of every accepted session is
+	// decoded; their post-processing goroutines encrypt at the same time)
+	for q := 0; q < env.pickN(32, 320); q++ {
+		idx := caseIdx
+		caseIdx++
+		if !env.mine(idx) {
+			continue
+		}
+		rng := rec.seed(uint64(idx), 92)
+		sc := c11Scenario{Case: idx, Part: "oob"}
+		sc.Link.Cipher = cipherNames[q%len(cipherNames)]
+		sc.Link.D, sc.Link.P = pick(rng, []int{2, 3, 10}), pick(rng, []int{1, 2})
+		sc.Link.UDPAddr = rng.chance(0.5)
+		sc.Link.Batch = rng.chance(0.4)
+		sc.Clients = pick(rng, []int{3, 4, 6, 8})
+		sc.Net = netProfile{Name: "clean", DelayMin: 3, DelayMax: 9, HealAt: 1}
+		sc.Bytes = rng.between(10000, 30000)
+		rec.beginCase(sc)
+		synctest.Test(t, func(t *testing.T) { runC19(t, rec, &sc, rng, q) })
+		rec.eval(1)
+		rec.count("scenarios_with_sessions_sharing_the_listeners_cipher", 1)
+		rec.nontrivial(hashAny(sc))
+	}
+
 	// ---- the nonce source under concurrent callers --------------------------------
 	// Every session of the process draws its nonces from one generator; the
 	// sessions of a listener also share the key. Eight goroutines draw at the
